@@ -1081,4 +1081,5 @@ class RaisedValue:
 BUILTINS = {'len', 'range', 'min', 'max', 'bytes', 'bytearray', 'list', 'tuple', 'enumerate', 'int', 'str',
             'format', 'isinstance', 'abs', 'bool', 'sorted', 'zip', 'open', 'print', 'ValueError',
             'TypeError', 'IndexError', 'AssertionError', 'Exception', 'KeyError', 'super', 'dict', 'set',
-            'any', 'all', 'sum', 'chr', 'ord', 'hasattr', 'getattr', 'iter', 'next', 'reversed', 'object'}
+            'any', 'all', 'sum', 'chr', 'ord', 'hasattr', 'getattr', 'iter', 'next', 'reversed', 'object', 'type',
+            'NotImplementedError', 'OSError', 'IOError'}
